@@ -1,6 +1,7 @@
 /-
   C17 — delivery-independent input; files stay separate; the input context is exact.
 -/
+import Jawk.Lemmas.RunSpec
 import Jawk.Model.Run
 import Jawk.Props.C16
 namespace Jawk.C17
@@ -129,5 +130,27 @@ theorem selectors_read_context (ic : InputCtx) :
 
 /-- non-vacuity / sanity: line and column of "ab\ncd" after 4 bytes is (2, 2) -/
 example : lineCol [97, 98, 10, 99] = (2, 2) := by decide
+
+
+/-! ### ordinals, for whole runs -/
+
+/-- `&index` is exact: the k-th row read in the run (all files together, skipped scalars and malformed regions
+not counted) carries index k -/
+theorem index_exact (c : Cfg) (sources : List Source) (k : Nat) (ctx : Ctx)
+    (h : (RunSpec.ctxsOfSources c sources 0)[k]? = some ctx) : ctx.ictx.map (·.index) = some k :=
+  RunSpec.index_exact c sources k ctx h
+
+/-- `&index-in-file` restarts at 0 in every file -/
+theorem index_in_file_restarts (c : Cfg) (src : Source) (idx k : Nat) (ctx : Ctx)
+    (h : (RunSpec.ctxsOf c (src.items.length + 2) (Reader.ofItems src.items src.name) 0 idx)[k]? = some ctx) :
+    ctx.ictx.map (·.fileIndex) = some k := RunSpec.fileIndex_restarts c src idx k ctx h
+
+/-- files are read one after the other: the rows of `f1 :: rest` are the rows of `f1` followed by the rows of
+`rest`, the run index running on — no value spans two files (each file gets a fresh reader) -/
+theorem files_concatenate (c : Cfg) (s1 : Source) (rest : List Source) (idx : Nat) :
+    RunSpec.ctxsOfSources c (s1 :: rest) idx
+      = RunSpec.ctxsOf c (s1.items.length + 2) (Reader.ofItems s1.items s1.name) 0 idx
+        ++ RunSpec.ctxsOfSources c rest
+            (idx + (RunSpec.ctxsOf c (s1.items.length + 2) (Reader.ofItems s1.items s1.name) 0 idx).length) := rfl
 
 end Jawk.C17
